@@ -211,6 +211,11 @@ func digestSpan(name, h string) (int, int) {
 	return strings.LastIndexByte(h, '$') + 1, len(h)
 }
 
+var (
+	c02xc      *xcrypt
+	c02xcTried bool
+)
+
 func c02Cases(rep *report, r *rng, sink *checkCaseSink, s *schemeOps, h, pw string, tier string) {
 	exhaustive := tier == "thorough" || rep.Distribution["c02_exhaustive_"+s.name] == nil
 	if exhaustive {
@@ -226,6 +231,23 @@ func c02Cases(rep *report, r *rng, sink *checkCaseSink, s *schemeOps, h, pw stri
 			// is not a defect of the verification
 			rc := recognise(s.name, h2)
 			if rc.ok {
+				// judged by the reference implementation where it knows the scheme and accepts the setting (so that a
+				// defect of this library's own Key cannot vouch for itself), otherwise by the library's Key
+				if c02xc == nil && !c02xcTried {
+					c02xc, c02xcTried = startXcrypt(), true
+				}
+				if c02xc != nil && s.name != "argon2" && !strings.ContainsRune(pw2, 0) {
+					if theirs := c02xc.crypt(h2, pw2); theirs != "FAIL" && len(theirs) >= len(rc.sum) {
+						rep.bump("c02_success_judged_by_libxcrypt")
+						if strings.HasSuffix(theirs, rc.sum) {
+							rep.bump("c02_success_by_genuine_digest_equality")
+							return
+						}
+						rep.fail(map[string]interface{}{"scheme": s.name, "hash": h2, "password_hex": fmt.Sprintf("%x", pw2), "original_hash": h, "original_password_hex": fmt.Sprintf("%x", pw)},
+							"mismatch or error (libxcrypt derives "+theirs+")", "nil", "verification succeeds for a "+kind+" although the reference digest for this password differs from the stored one")
+						return
+					}
+				}
 				if key, kerr := s.key(pw2, rc.p); kerr == nil && refSum(s.name, key) == rc.sum {
 					rep.bump("c02_success_by_genuine_digest_equality")
 					return
@@ -327,6 +349,10 @@ func c02Cases(rep *report, r *rng, sink *checkCaseSink, s *schemeOps, h, pw stri
 		if len(b) == cut {
 			tryPw(append(append([]byte(nil), b...), b...), "password_extended_at_boundary")
 		}
+	}
+	// cost / version fields rewritten to numbers congruent modulo the field width, and past each width
+	for _, e := range numericEdits(h[:lo]) {
+		never(e+h[lo:], pw, "cost_overflow_edit", true)
 	}
 	// salt / cost edits: every position before the digest, replaced by another symbol of the same class
 	for i := 0; i < lo; i++ {
